@@ -985,13 +985,17 @@ theorem writeCell_frame {s s1 : St Id} {c : Cell} {v : Int} (h : writeCell s c v
 /-- userecRawAddToUHash on a slot that is on no chain, cold mode: skip, or write the id and link the slot. -/
 theorem loaderAdd_cold (hlt : ∀ a, e.hash a < e.B) {s : St Id} {ch : Nat → List Nat} (hwf : WF e s ch) {k : Nat}
     (hk : k < e.MAX) (hfree : Free e ch k) (id : Id) (cnt : Nat) :
-    (∃ cnt', loaderAdd e false s k id cnt = .ok (s, cnt')) ∨
-    ∃ s' cnt', loaderAdd e false s k id cnt = .ok (s', cnt') ∧
+    (loaderAdd e false s k id cnt = .ok (s, if e.valid id = true then cnt else cnt + 1) ∧
+      e.valid id = false ∧ cnt + 1 > e.PRE) ∨
+    ∃ s', loaderAdd e false s k id cnt = .ok (s', if e.valid id = true then cnt else cnt + 1) ∧
       WF e s' (upd ch (e.hash id) (ch (e.hash id) ++ [k])) ∧ s'.userid = s.userid.set k id ∧
       s'.number = s.number ∧ s'.loaded = s.loaded := by
   by_cases hskip : (!e.valid id) = true ∧ (if e.valid id = true then cnt else cnt + 1) > e.PRE
   · left
-    exact ⟨(if e.valid id = true then cnt else cnt + 1), by simp only [loaderAdd, hskip, and_self, if_true, pure_ok]⟩
+    have hv : e.valid id = false := by simpa using hskip.1
+    refine ⟨by simp only [loaderAdd, hskip, and_self, if_true, pure_ok], hv, ?_⟩
+    have := hskip.2
+    simpa [hv] using this
   · right
     have hwf1 := wf_setid hwf hfree id
     have hh := hlt id
@@ -1002,7 +1006,7 @@ theorem loaderAdd_cold (hlt : ∀ a, e.hash a < e.B) {s : St Id} {ch : Nat → L
     obtain ⟨s1, hw, hs, hwf2, hu⟩ := wf_link hwf1 hk hfree hh hid0 rfl
     have hlen : (ch (e.hash id)).length ≤ e.MAX := wf_length_le hwf hh
     have hf := writeCell_frame hw
-    refine ⟨{ s1 with next := s1.next.set k (-1) }, (if e.valid id = true then cnt else cnt + 1), ?_, hwf2, hu, hf.2.1, hf.2.2⟩
+    refine ⟨{ s1 with next := s1.next.set k (-1) }, ?_, hwf2, hu, hf.2.1, hf.2.2⟩
     have hv' : s.head[e.hash id]? = some v := hv
     have hloop := loaderLoop_spec e false k e.MAX (.head (e.hash id)) hc (fun x hx => wf_lt hwf hh hx) hlen
     simp only [Bool.false_eq_true, false_and, if_false] at hloop
@@ -1053,21 +1057,26 @@ theorem fillLoop_cold (hlt : ∀ a, e.hash a < e.B) : ∀ (recs : List Id) (i cn
     ∃ s' ch', fillLoop e false recs i cnt s = .ok s' ∧ WF e s' ch' ∧ Cover e [] s' ch' ∧
       s'.number = s.number ∧ s'.loaded = s.loaded ∧
       (∀ j, j < i ∨ i + recs.length ≤ j → s'.userid[j]? = s.userid[j]?) ∧
-      (∀ j r, recs[j]? = some r → s'.userid[i + j]? = some r ∨ s'.userid[i + j]? = s.userid[i + j]?) := by
+      (∀ j r, recs[j]? = some r → s'.userid[i + j]? = some r ∨ s'.userid[i + j]? = s.userid[i + j]?) ∧
+      (∀ h x, x ∈ ch h → x ∈ ch' h) ∧
+      (cnt + (recs.filter (fun r => !e.valid r)).length ≤ e.PRE →
+        ∀ j r, recs[j]? = some r → s'.userid[i + j]? = some r ∧ i + j ∈ ch' (e.hash r)) := by
   intro recs
   induction recs with
   | nil =>
     intro i cnt s ch hwf _ hcov _
-    exact ⟨s, ch, rfl, hwf, hcov, rfl, rfl, fun _ _ => rfl, fun j r h => by simp at h⟩
+    exact ⟨s, ch, rfl, hwf, hcov, rfl, rfl, fun _ _ => rfl, fun j r h => by simp at h, fun _ _ h => h,
+      fun _ j r h => by simp at h⟩
   | cons r rs ih =>
     intro i cnt s ch hwf hbelow hcov hlen
     have hi : i < e.MAX := by simp at hlen; omega
     have hfree : Free e ch i := fun h hh hx => by have := hbelow h hh i hx; omega
     have hiu : i < s.userid.length := by rw [hwf.1.hu]; exact hi
-    rcases loaderAdd_cold hlt hwf hi hfree r cnt with ⟨cnt', hrun⟩ | ⟨s1, cnt', hrun, hwf1, hu1, hn1, hl1⟩
-    · obtain ⟨s', ch', hr', hwf', hcov', hn', hl', hout, hin⟩ :=
-        ih (i + 1) cnt' s ch hwf (fun h hh x hx => by have := hbelow h hh x hx; omega) hcov (by simp at hlen; omega)
-      refine ⟨s', ch', ?_, hwf', hcov', hn', hl', ?_, ?_⟩
+    rcases loaderAdd_cold hlt hwf hi hfree r cnt with ⟨hrun, hinv, hpre⟩ | ⟨s1, hrun, hwf1, hu1, hn1, hl1⟩
+    · obtain ⟨s', ch', hr', hwf', hcov', hn', hl', hout, hin, hmono, _⟩ :=
+        ih (i + 1) (if e.valid r = true then cnt else cnt + 1) s ch hwf
+          (fun h hh x hx => by have := hbelow h hh x hx; omega) hcov (by simp at hlen; omega)
+      refine ⟨s', ch', ?_, hwf', hcov', hn', hl', ?_, ?_, hmono, ?_⟩
       · simp only [fillLoop, hrun, bind_ok, hr']
       · intro j hj
         apply hout
@@ -1080,6 +1089,10 @@ theorem fillLoop_cold (hlt : ∀ a, e.hash a < e.B) : ∀ (recs : List Id) (i cn
           have := hin j r' (by simpa using hj)
           rw [show i + 1 + j = i + (j + 1) by omega] at this
           exact this
+      · intro hP
+        exfalso
+        simp only [List.filter_cons, hinv, Bool.not_false, if_true, List.length_cons] at hP
+        omega
     · have hbelow1 : ∀ h, h < e.B → ∀ x ∈ upd ch (e.hash r) (ch (e.hash r) ++ [i]) h, x < i + 1 := by
         intro h hh x hx
         simp only [upd] at hx
@@ -1102,9 +1115,19 @@ theorem fillLoop_cold (hlt : ∀ a, e.hash a < e.B) : ∀ (recs : List Id) (i cn
           split
           · rename_i heq; rw [heq] at this; exact List.mem_append_left _ this
           · exact this
-      obtain ⟨s', ch', hr', hwf', hcov', hn', hl', hout, hin⟩ :=
-        ih (i + 1) cnt' s1 _ hwf1 hbelow1 hcov1 (by simp at hlen; omega)
-      refine ⟨s', ch', ?_, hwf', hcov', by rw [hn', hn1], by rw [hl', hl1], ?_, ?_⟩
+      have hmono1 : ∀ h x, x ∈ ch h → x ∈ upd ch (e.hash r) (ch (e.hash r) ++ [i]) h := by
+        intro h x hx
+        simp only [upd]
+        split
+        · rename_i heq; subst heq; exact List.mem_append_left _ hx
+        · exact hx
+      obtain ⟨s', ch', hr', hwf', hcov', hn', hl', hout, hin, hmono, htab⟩ :=
+        ih (i + 1) (if e.valid r = true then cnt else cnt + 1) s1 _ hwf1 hbelow1 hcov1 (by simp at hlen; omega)
+      have hi_tab : s'.userid[i]? = some r := by
+        rw [hout i (by omega), hu1]
+        simp [hiu]
+      refine ⟨s', ch', ?_, hwf', hcov', by rw [hn', hn1], by rw [hl', hl1], ?_, ?_,
+        fun h x hx => hmono h x (hmono1 h x hx), ?_⟩
       · simp only [fillLoop, hrun, bind_ok, hr']
       · intro j hj
         have hj' : j < i + 1 ∨ i + 1 + rs.length ≤ j := by simp at hj; omega
@@ -1116,12 +1139,23 @@ theorem fillLoop_cold (hlt : ∀ a, e.hash a < e.B) : ∀ (recs : List Id) (i cn
         | zero =>
           left
           simp at hj; subst hj
-          show s'.userid[i]? = some r
-          rw [hout i (by omega), hu1]
-          simp [hiu]
+          exact hi_tab
         | succ j =>
           have := hin j r' (by simpa using hj)
           rw [show i + 1 + j = i + (j + 1) by omega, hu1, List.getElem?_set_ne (by omega)] at this
+          exact this
+      · intro hP j r' hj
+        have hP' : (if e.valid r = true then cnt else cnt + 1) + (rs.filter (fun r => !e.valid r)).length ≤ e.PRE := by
+          simp only [List.filter_cons] at hP
+          cases hv : e.valid r <;> simp [hv] at hP ⊢ <;> omega
+        cases j with
+        | zero =>
+          simp at hj; subst hj
+          refine ⟨hi_tab, hmono _ _ ?_⟩
+          simp [upd]
+        | succ j =>
+          have := htab hP' j r' (by simpa using hj)
+          rw [show i + 1 + j = i + (j + 1) by omega] at this
           exact this
 
 /-- fillUHash's record loop, on-the-fly mode, over records that agree with the live ids -/
